@@ -18,13 +18,27 @@ uint64_t nondet_u64(void);
 /* The runner recovers the input sequence from the counterexample trace: every assignment to the
  * local 'v' of vin64, in execution order.  (No recording array: a counter that becomes symbolic
  * after a conditional call would turn every later record into a symbolic-index array write.) */
+#ifdef VIN_KEEP_ALL
+/* For queries run with --slice-formula: inputs outside the cone of influence of every assertion are dropped from the
+ * equation and from the trace, which shifts the replayed input sequence.  With VIN_KEEP_ALL every input feeds an
+ * accumulator that the witness assertion reads, so all of them stay in the trace (the witness still fails on every
+ * execution that reaches the end, except for the one accumulator value in 2^64). */
+static uint64_t vin_acc;
+static inline uint64_t vin64(void) {
+    uint64_t v = nondet_u64();
+    vin_acc = (vin_acc << 1 | vin_acc >> 63) ^ v;
+    return v;
+}
+#define V_COVER() __CPROVER_assert(vin_acc == 0x9E3779B97F4A7C15ULL, "WITNESS reached")
+#else
 static inline uint64_t vin64(void) {
     uint64_t v = nondet_u64();
     return v;
 }
+#define V_COVER() __CPROVER_assert(0, "WITNESS reached")
+#endif
 #define V_ASSUME(c) __CPROVER_assume(c)
 #define V_ASSERT(c, msg) __CPROVER_assert((c), "PROP " msg)
-#define V_COVER() __CPROVER_assert(0, "WITNESS reached")
 #else
 extern const uint64_t __vin_replay[];
 extern const unsigned __vin_replay_n;
